@@ -27,6 +27,7 @@ type flowScn struct {
 	Rounds  int    `json:"rounds"`
 	ReadBuf int    `json:"readbuf"`
 	Split   bool   `json:"split"`
+	Writer  string `json:"writer"` // how the client's ResponseWriter offers flushing: "", "mw", "errflusher", "unwrap"
 }
 
 type flowObs struct {
@@ -41,8 +42,8 @@ type flowObs struct {
 	EndCode   int     `json:"endcode"`
 	N         int     `json:"n"`
 	Panic     bool    `json:"panic"`
-	ReqOK     bool    `json:"reqok"`   // the handler saw exactly the request messages, in order
-	RespOK    bool    `json:"respok"`  // the client saw exactly the replies, in order
+	ReqOK     bool    `json:"reqok"`  // the handler saw exactly the request messages, in order
+	RespOK    bool    `json:"respok"` // the client saw exactly the replies, in order
 	Flushes   int     `json:"flushes"`
 }
 
@@ -101,6 +102,51 @@ func (v *visibleWriter) waitFrames(k int, deadline time.Time) bool {
 		t.Stop()
 	}
 }
+
+// Middleware-style ResponseWriters in front of the client connection (what asFlusher has to cope with).
+// bufferingMW holds written bytes until ITS Flush is called (a compressing / buffering middleware) and
+// also offers Unwrap; flushing only the inner writer leaves its buffer invisible.
+type bufferingMW struct {
+	inner *visibleWriter
+	mu    sync.Mutex
+	buf   []byte
+}
+
+func (b *bufferingMW) Header() http.Header { return b.inner.Header() }
+func (b *bufferingMW) WriteHeader(c int)   { b.inner.WriteHeader(c) }
+func (b *bufferingMW) Write(p []byte) (int, error) {
+	b.mu.Lock()
+	defer b.mu.Unlock()
+	b.buf = append(b.buf, p...)
+	return len(p), nil
+}
+func (b *bufferingMW) drain() {
+	b.mu.Lock()
+	data := b.buf
+	b.buf = nil
+	b.mu.Unlock()
+	if len(data) > 0 {
+		_, _ = b.inner.Write(data)
+	}
+}
+func (b *bufferingMW) Flush()                      { b.drain(); b.inner.Flush() }
+func (b *bufferingMW) Unwrap() http.ResponseWriter { return b.inner }
+
+// errFlusherMW is the same middleware offering only FlushError (the Go 1.20+ style), no Unwrap.
+type errFlusherMW struct{ b *bufferingMW }
+
+func (e errFlusherMW) Header() http.Header         { return e.b.Header() }
+func (e errFlusherMW) WriteHeader(c int)           { e.b.WriteHeader(c) }
+func (e errFlusherMW) Write(p []byte) (int, error) { return e.b.Write(p) }
+func (e errFlusherMW) FlushError() error           { e.b.Flush(); return nil }
+
+// unwrapMW does not buffer and cannot flush itself: only Unwrap leads to a Flusher.
+type unwrapMW struct{ inner *visibleWriter }
+
+func (u unwrapMW) Header() http.Header         { return u.inner.Header() }
+func (u unwrapMW) WriteHeader(c int)           { u.inner.WriteHeader(c) }
+func (u unwrapMW) Write(p []byte) (int, error) { return u.inner.Write(p) }
+func (u unwrapMW) Unwrap() http.ResponseWriter { return u.inner }
 
 func init() {
 	register("flow", func(raw json.RawMessage, seed int64) []any {
@@ -199,9 +245,8 @@ func init() {
 				} else {
 					_, _ = w.Write(out)
 				}
-				if fl, ok := w.(http.Flusher); ok {
-					fl.Flush()
-				}
+				// (on a pass-through route the handler is given the client's writer as it is)
+				_ = http.NewResponseController(w).Flush()
 			}
 			_, _ = io.Copy(io.Discard, req.Body)
 			switch form {
@@ -276,7 +321,24 @@ func init() {
 					obs.Panic = true
 				}
 			}()
-			tc.ServeHTTP(vw, req)
+			var cw http.ResponseWriter = vw
+			var mw *bufferingMW
+			switch fs.Writer {
+			case "mw":
+				mw = &bufferingMW{inner: vw}
+				cw = mw
+			case "errflusher":
+				mw = &bufferingMW{inner: vw}
+				cw = errFlusherMW{b: mw}
+			case "unwrap":
+				cw = unwrapMW{inner: vw}
+			}
+			defer func() {
+				if mw != nil {
+					mw.drain() // the middleware hands over what is left when the handler returns
+				}
+			}()
+			tc.ServeHTTP(cw, req)
 		}()
 		vw.end()
 		clientDone.Wait()
